@@ -266,3 +266,31 @@ N('benign.ja3-rewritten', [(P + 'tls/subprotocol.py', '        extension_types =
 B('C11.timestamp-ms-scale', ['C11'], [(P + 'common/parse.py', "                timestamp *= 1000\n                timestamp += value.microsecond // 1000", "                timestamp *= 1000\n                timestamp += value.microsecond // 100")], mention=['C11.R5'])
 B('C11.flags-and-instead-of-or', ['C11'], [(P + 'common/parse.py', "            flag |= value >> shift_right", "            flag ^= value >> shift_right\n            flag |= 0")] if False else [(P + 'common/parse.py', "            if flag & (value[0] << shift_left)\n", "            if flag == (value[0] << shift_left)\n")], mention=['C11.R4'])
 N('benign.flags-loop-rewritten', [(P + 'common/parse.py', "        flag = 0\n        for value in values:\n            flag |= value >> shift_right\n", "        flag = 0\n        for value in values:\n            flag = flag | (value >> shift_right)\n")])
+
+
+# ---------------------------------------------------------------- round 3 rules, both ways
+B('C19.rescan-accumulator', ['C19'], [(P + 'dnsrec/txt.py', "            terms.append(term)\n            del parser['term']\n",
+   "            terms.append(term)\n            if sum(1 for parsed in terms if type(parsed) is type(term)) > 64:\n                raise InvalidValue(parser['term'], cls, 'terms')\n            del parser['term']\n")],
+  mention=['rescan'])
+N('benign.len-of-accumulator-in-loop', [(P + 'dnsrec/txt.py', "            terms.append(term)\n            del parser['term']\n",
+   "            terms.append(term)\n            term_count = len(terms)\n            del parser['term']\n            del term_count\n")])
+B('C04.gate-on-one-branch', ['C04', 'C03'], [(P + 'tls/mysql.py', "        parser.parse_raw('packet_bytes', parser['packet_length'])\n\n        return MySQLRecord(\n            packet_number=parser['packet_number'],\n            packet_bytes=parser['packet_bytes'],\n        ), parser.parsed_length",
+   "        if parser['packet_number']:\n            parser.parse_raw('packet_bytes', parser['packet_length'])\n            packet_bytes, parsed_length = parser['packet_bytes'], parser.parsed_length\n        else:\n            packet_bytes = parser.unparsed[:parser['packet_length']]\n            parsed_length = parser.parsed_length + len(packet_bytes)\n\n        return MySQLRecord(\n            packet_number=parser['packet_number'],\n            packet_bytes=packet_bytes,\n        ), parsed_length")],
+  mention=['some-path'])
+N('benign.gate-on-both-branches', [(P + 'tls/mysql.py', "        parser.parse_raw('packet_bytes', parser['packet_length'])\n\n        return MySQLRecord(",
+   "        if parser['packet_number']:\n            parser.parse_raw('packet_bytes', parser['packet_length'])\n        else:\n            parser.parse_raw('packet_bytes', parser['packet_length'])\n\n        return MySQLRecord(")])
+B('C02.flags-convert-any-bit', ['C02', 'C11'], [(P + 'common/parse.py', "        value = {\n            flags_class(flag & (value[0] << shift_left))\n            for flag in flags_class\n            if flag & (value[0] << shift_left)\n        }\n",
+   "        word = value[0] << shift_left\n        value = {flags_class(1 << bit) for bit in range(word.bit_length()) if word >> bit & 1}\n")])
+N('benign.flags-loop-form', [(P + 'common/parse.py', "        value = {\n            flags_class(flag & (value[0] << shift_left))\n            for flag in flags_class\n            if flag & (value[0] << shift_left)\n        }\n",
+   "        word = value[0] << shift_left\n        value = set()\n        for flag in flags_class:\n            if flag & word:\n                value.add(flags_class(flag & word))\n")])
+B('C05.compose-edits-own-vector', ['C05', 'C13'], [(P + 'tls/subprotocol.py', "        cipher_suites = list(self.cipher_suites)\n", "        cipher_suites = self.cipher_suites\n")])
+N('benign.compose-copies-by-slice', [(P + 'tls/subprotocol.py', "        cipher_suites = list(self.cipher_suites)\n", "        cipher_suites = [cipher_suite for cipher_suite in self.cipher_suites]\n")])
+B('C07.prefix-from-cached-size', ['C07', 'C01', 'C12'], [(P + 'common/base.py', "        header_composer.compose_numeric(body_composer.composed_length, self.param.item_num_size)",
+   "        header_composer.compose_numeric(self._items_size, self.param.item_num_size)")])
+N('benign.prefix-from-len-of-bytes', [(P + 'common/base.py', "        header_composer.compose_numeric(body_composer.composed_length, self.param.item_num_size)",
+   "        header_composer.compose_numeric(len(body_composer.composed_bytes), self.param.item_num_size)")])
+B('C15.extension-rejects-more', ['C15', 'C06'], [(P + 'tls/extension.py', "        parser.parse_raw('padding', parser['extension_length'])\n        try:",
+   "        parser.parse_raw('padding', parser['extension_length'])\n        if parser['extension_length'] % 2:\n            raise InvalidValue(parser['extension_length'], cls, 'extension_length')\n        try:")])
+B('C13.swap-restore-on-cls', ['C13', 'C14'], [(P + 'common/base.py', "                _, human_readable_name = _SerializablePlainText._markdown_result(name)",
+   "                saved, cls.post_text_encoder = cls.post_text_encoder, SerializableTextEncoder()\n                try:\n                    _, human_readable_name = cls._markdown_result(name)\n                finally:\n                    cls.post_text_encoder = saved")])
+B('C08.timestamp-local-tuple', ['C08', 'C06', 'C07', 'C11'], [(P + 'common/parse.py', "value.utctimetuple()", "value.timetuple()")])
